@@ -58,6 +58,7 @@ type scenario struct {
 	ext          bool
 	l2           bool
 	redirectPeer bool
+	short        bool // frames without payload (< 128 bytes): the direct-access parser only runs with a lenient pull
 	progA, progB int
 	depth        int
 	progs        []*ruleProgram
@@ -70,8 +71,8 @@ type scenario struct {
 func ap(a netip.Addr, p uint16) netip.AddrPort { return netip.AddrPortFrom(a, p) }
 
 // buildScenario lays out conversations and the event alphabet (simplest first).
-func buildScenario(progs []*ruleProgram, side int, v6, ext, l2, peer bool, a, b string, depth int, rich bool) *scenario {
-	sc := &scenario{side: side, v6: v6, ext: ext, l2: l2, redirectPeer: peer, progA: progIndex(progs, a), progB: progIndex(progs, b), depth: depth,
+func buildScenario(progs []*ruleProgram, side int, v6, ext, l2, peer, short bool, a, b string, depth int, rich bool) *scenario {
+	sc := &scenario{side: side, v6: v6, ext: ext, l2: l2, redirectPeer: peer, short: short, progA: progIndex(progs, a), progB: progIndex(progs, b), depth: depth,
 		progs: progs, addrs: addrsFor(v6), decCache: map[[3]int]decision{}}
 	fam := "v4"
 	if v6 {
@@ -91,6 +92,9 @@ func buildScenario(progs []*ruleProgram, side int, v6, ext, l2, peer bool, a, b 
 	sc.name = fmt.Sprintf("%s/%s/%s/%s>%s", sd, fam, link, a, b)
 	if peer {
 		sc.name += "/peer"
+	}
+	if short {
+		sc.name += "/short"
 	}
 	ad := sc.addrs
 	src := ad.client
@@ -151,7 +155,9 @@ func buildScenario(progs []*ruleProgram, side int, v6, ext, l2, peer bool, a, b 
 		event{name: "swap-rules", kind: evSwap},
 		event{name: "learn-domain", kind: evDomain},
 		event{name: "tick+2s", kind: evTick, dt: 2 * sec},
+		event{name: "tick+10s", kind: evTick, dt: 10 * sec}, // exactly the FIN/RST timeout: not yet expired
 		event{name: "tick+11s", kind: evTick, dt: 11 * sec},
+		event{name: "tick+120s", kind: evTick, dt: 120 * sec}, // exactly the idle timeout: not yet expired
 		event{name: "tick+121s", kind: evTick, dt: 121 * sec},
 		event{name: "flip-g1-tcp", kind: evFlip},
 		event{name: "flip-g1-udp", kind: evFlip, udp: true},
@@ -186,8 +192,7 @@ func buildScenario(progs []*ruleProgram, side int, v6, ext, l2, peer bool, a, b 
 			fr(hookRouted, FW, "SYN", fSYN)
 		}
 		sc.events = append(sc.events,
-			event{name: "tick+10s", kind: evTick, dt: 10 * sec},
-			event{name: "tick+120s", kind: evTick, dt: 120 * sec},
+			event{name: "tick+119s", kind: evTick, dt: 119 * sec},
 			event{name: "flip-g1-tcp-otherfamily", kind: evFlip, otherFamily: true},
 		)
 	}
@@ -221,7 +226,7 @@ func buildScenario(progs []*ruleProgram, side int, v6, ext, l2, peer bool, a, b 
 
 func (sc *scenario) frameSpecFor(ev *event) *frameSpec {
 	c := &sc.convs[ev.conv]
-	fs := &frameSpec{l2: sc.l2, proto: c.proto, tcpFlags: ev.flags, flavour: ev.flavour, truncate: ev.truncate}
+	fs := &frameSpec{l2: sc.l2, proto: c.proto, tcpFlags: ev.flags, flavour: ev.flavour, truncate: ev.truncate, short: sc.short}
 	switch ev.hook {
 	case hookRouted:
 		fs.src, fs.dst = c.src, c.dst
@@ -287,16 +292,17 @@ func (sc *scenario) skbFor(ev *event) (*vkern.Skb, *frameSpec, int) {
 // ---------------------------------------------------------------------------------------------------------------
 // kernel state observation
 
-var dataMaps = []string{"conn_state_map", "routing_handoff_map", "redirect_track", "cookie_pid_map"}
+// The maps the TC programs write. cookie_pid_map (written by the cgroup programs only; the TC programs merely refresh
+// its stamps) and bpf_stats_map (monotonic overflow counters) are not part of the state key.
+var dataMaps = []string{"conn_state_map", "routing_handoff_map", "redirect_track"}
 
 type kstate struct {
-	maps  [4][]vkern.Entry // sorted by key
-	stats []vkern.Entry
+	maps [3][]vkern.Entry // sorted by key
 }
 
 var (
-	offConn, offHandoff, offRedirect, offPid uintptr
-	handoffTimeoutNs                         uint64
+	offConn, offHandoff, offRedirect uintptr
+	handoffTimeoutNs                 uint64
 )
 
 func (s *script) observe(k *kc) *kstate {
@@ -304,7 +310,6 @@ func (s *script) observe(k *kc) *kstate {
 	for i, m := range dataMaps {
 		s.mapDump(k, m, false, &st.maps[i])
 	}
-	s.mapDump(k, "bpf_stats_map", true, &st.stats)
 	return st
 }
 
@@ -317,8 +322,8 @@ func (st *kstate) sort() {
 
 // canon: all map contents with last-seen stamps rewritten to ages relative to now. Ages are exact up to the largest
 // threshold any reader compares them with (120 s for conn state, routingHandoffTimeout for hand-off records) and
-// saturate above it (a bisimulation: larger ages behave identically for ever). The stamps of redirect_track and
-// cookie_pid_map are read by no code in scope (only the userspace janitor) and are left out.
+// saturate above it (a bisimulation: larger ages behave identically for ever). The stamps of redirect_track are read
+// by no code in scope (only the userspace janitor) and are left out.
 func (st *kstate) canon(now uint64, b []byte) []byte {
 	for i := range st.maps {
 		b = append(b, byte(0xf0+i))
@@ -334,8 +339,6 @@ func (st *kstate) canon(now uint64, b []byte) []byte {
 				off, sat = offHandoff, handoffTimeoutNs+1
 			case 2:
 				off, sat = offRedirect, 0
-			case 3:
-				off, sat = offPid, 0
 			}
 			ls := binary.LittleEndian.Uint64(v[off:])
 			age := now - ls
@@ -347,11 +350,6 @@ func (st *kstate) canon(now uint64, b []byte) []byte {
 			binary.LittleEndian.PutUint64(v[off:], age)
 			b = append(b, v...)
 		}
-	}
-	b = append(b, 0xfe)
-	for _, en := range st.stats {
-		b = append(b, en.Key...)
-		b = append(b, en.Value...)
 	}
 	return b
 }
@@ -451,9 +449,9 @@ type explorer struct {
 	perKind map[string]int
 
 	states, transitions, frames, fastRuns, slowRuns atomic.Int64
-	outcomes                                          [5]atomic.Int64
-	recFrom                                           [2]atomic.Int64
-	firstPkts, stickyPkts, dae0peerRuns, altDrops     atomic.Int64
+	outcomes                                        [5]atomic.Int64
+	recFrom                                         [2]atomic.Int64
+	firstPkts, stickyPkts, dae0peerRuns, altDrops   atomic.Int64
 }
 
 func (x *explorer) pathString(path []uint16, last int) string {
@@ -568,7 +566,9 @@ func (x *explorer) expand(e *kenv, n *node) []succ {
 		for _, mode := range modes {
 			r := &frameRun{mode: mode}
 			sB.restore(snap)
-			sB.setKnobs(mode)
+			if mode != vkern.PullKernel {
+				sB.setKnobs(mode) // the snapshot carries PullKernel
+			}
 			sB.inject(sc.hookName(ev), t.skb, &r.v)
 			r.st = sB.observe(k)
 			t.runs = append(t.runs, r)
@@ -670,7 +670,7 @@ func pathName(v *vkern.Verdict) string {
 
 func dumpState(st *kstate) map[string][]string {
 	out := map[string][]string{}
-	for i, m := range dataMaps[:3] {
+	for i, m := range dataMaps {
 		for _, en := range st.maps[i] {
 			out[m] = append(out[m], hex.EncodeToString(en.Key)+" => "+hex.EncodeToString(en.Value))
 		}
